@@ -425,9 +425,28 @@ def brentq(f, a, b, args=(), xtol=None, rtol=None, maxiter=100, full_output=Fals
     c.assume((lift(r) >= lift(a)).node)
     c.assume((lift(r) <= lift(b)).node)
     fr = f(r, *args)
-    c.assume((lift(fr) == 0).node)
+    # scipy: with disp=True (default) a run that does not converge within maxiter raises RuntimeError; with disp=False the
+    # current iterate is returned and only RootResults.converged (full_output=True) says so.  The root property is
+    # therefore part of the contract only when non-convergence cannot pass silently.
+    silent = not bool(disp)
+    converged = True
+    if silent:
+        if full_output:
+            converged = bool(lift(_fresh(f"brentq_converged{len(OptCalls.brentq)}")) > 0)     # either outcome: the path splits
+        else:
+            converged = False
+    if converged:
+        c.assume((lift(fr) == 0).node)
     OptCalls.brentq.append({"f": f, "a": a, "b": b, "root": r, "xtol": xtol, "rtol": rtol, "fa": fa, "fb": fb,
-                            "same_sign": same})
+                            "same_sign": same, "maxiter": maxiter, "disp": disp, "full_output": full_output,
+                            "root_guaranteed": converged})
+    if full_output:
+        class RootResults:
+            pass
+        rr = RootResults()
+        rr.root, rr.converged, rr.flag = r, converged, ("converged" if converged else "convergence error")
+        rr.iterations = rr.function_calls = maxiter
+        return r, rr
     return r
 
 
@@ -468,7 +487,8 @@ def curve_fit(f, xdata, ydata, p0=None, sigma=None, absolute_sigma=False, check_
             c.assume((lift(v) >= lift(l)).node)
         if not (isinstance(h, float) and math.isinf(h)):
             c.assume((lift(v) <= lift(h)).node)
-    OptCalls.curve_fit.append({"f": f, "xdata": xdata, "ydata": ydata, "p0": p0l, "lo": los, "hi": his, "popt": popt})
+    OptCalls.curve_fit.append({"f": f, "xdata": xdata, "ydata": ydata, "p0": p0l, "lo": los, "hi": his, "popt": popt,
+                               "sigma": sigma, "absolute_sigma": absolute_sigma, "method": method, "jac": jac, "kw": dict(kw)})
     return SymArray(popt, "f8"), None
 
 
